@@ -43,7 +43,7 @@ def plan(prop, tier):
         'C09': [('L3y', lambda: LY.L3y(tier, b)), ('L7s', lambda: LY.L7s(tier, b)), ('L1', lambda: LY.L1(tier, b)), ('L1x', lambda: LY.L1x(tier, b)), ('L1y', lambda: LY.L1y(tier, b)), ('L3', lambda: LY.L3(tier, b)), ('L4cal', lambda: LY.L4_inputs(tier, b)),
                 ('L2', lambda: LY.L2(tier, b)), ('L3long', lambda: LY.L3long(tier, b))],
         'C14': [('L3y', lambda: LY.L3y(tier)), ('L7s', lambda: LY.L7s(tier)), ('L2c', lambda: LY.L2c(tier)), ('L1', lambda: LY.L1(tier, include_cycles=True)), ('L1x', lambda: LY.L1x(tier)), ('L1y', lambda: LY.L1y(tier)), ('L2', lambda: LY.L2(tier)), ('L3', lambda: LY.L3(tier)),
-                ('L6', lambda: LY.L6(tier, include_cycles=True)), ('L7', lambda: LY.L3(tier, decimal=True)), ('L5', lambda: LY.L5(tier)), ('L2b', lambda: LY.L2b(tier)), ('L3long', lambda: LY.L3long(tier)),
+                ('L6', lambda: LY.L6(tier, include_cycles=True)), ('L7', lambda: LY.L3(tier, decimal=True)), ('L5', lambda: LY.L5(tier)), ('L2b', lambda: LY.L2b(tier)), ('L3long', lambda: LY.L3long(tier)), ('L5b', lambda: LY.L5b(tier)),
                 ('L4cal', lambda: LY.L4_inputs(tier))],
     }
     return P[prop] + ([('HC', None)] if prop in ('C02', 'C03', 'C04', 'C08', 'C14') else [])
@@ -90,6 +90,8 @@ def evaluate(prop, sc, ex, acc, extra=None, expected=None):
         return None
     ob = SchedObs(ex)
     ctx = OR.Ctx(sc)
+    if set(ob.order) == {t[0] for t in sc.tasks}:
+        OR.install_declared(sc, ob)
     ORACLE[prop](sc, ctx, ex, ob, V, Pm)
     if prop == 'C08' and not sc.balance:
         c08_metamorphic(sc, ctx, ex, ob, V, Pm)
@@ -237,12 +239,45 @@ def calendar_edit_histories(prop, acc, compare_fresh=False):
                         evaluate(prop, sc, ex2, acc, extra={'calendar_edit': edit, 'note': 'second calc on the same scheduler after the edit'})
 
 
+def default_resource_histories(prop, acc):
+    """A schedule is computed without supplying resources; the caller edits the default resource object it got back (a what-if
+    calendar); a NEW scheduler then schedules the same WBS. The new scheduler must again create a Monday-Friday 8-unit default
+    and give the result of any fresh scheduler (nothing shared between scheduler objects)."""
+    from pjplan import WeeklyCalendar
+    for sched_kind in ('fwd', 'bwd'):
+        A = MON if sched_kind == 'fwd' else MON + 21 * DAY
+        for rn in ('A', None):
+            for bal in (True, False):
+                attrs = {0: {'estimate': 12, 'resource': rn}, 1: {'estimate': 4, 'resource': rn}}
+                sc = Scenario(sched_kind, bal, A, LY.mk_tasks((None, None), attrs), [], layer='HD')
+                ex1 = execute(sc)
+                if ex1.status != 'ok':
+                    continue
+                k1 = outcome_key(SchedObs(ex1))
+                for r in ex1.result.resources:
+                    r.calendar = WeeklyCalendar(days=[5, 6], units_per_day=4)
+                ex2 = execute(sc)
+                acc.count('premise:new-scheduler-after-default-resource-was-edited')
+                if prop == 'C06':
+                    acc.count('executions', 2)
+                    acc.count('nontrivial')
+                    k2 = outcome_key(SchedObs(ex2)) if ex2.status == 'ok' else ex2.status
+                    if k2 != k1:
+                        V, _ = _mk_V(acc, 'C06', sc, {'history': 'calc; edit returned default resource; fresh scheduler calc'})
+                        V('fresh-scheduler-result-depends-on-earlier-scheduler', '-',
+                          'a new scheduler with equal inputs gives another schedule after the default resource returned by an earlier scheduler was edited')
+                else:
+                    evaluate(prop, sc, ex2, acc, extra={'history': 'calc; edit returned default resource; fresh scheduler calc'})
+
+
 def _work(chunk):
     prop, tier, lname, i, n = chunk
     acc = runtime.Acc()
     if lname == 'HC':
         if i == 0:
             calendar_edit_histories(prop, acc)
+            if prop in ('C03', 'C04', 'C14'):
+                default_resource_histories(prop, acc)
         return acc
     gen = dict(plan(prop, tier))[lname]()
     bound_cal = 2 if tier == 'quick' else 3
@@ -506,6 +541,7 @@ def _work_c06(chunk):
             c06_edit_histories(s, b, acc)
         if i == 0:
             calendar_edit_histories('C06', acc)
+            default_resource_histories('C06', acc)
         return acc
     gen = dict(_c06_layers(tier))[lname]()
     for sc in itertools.islice(gen, i, None, n):
